@@ -40,10 +40,12 @@ ASSUMPTIONS = [
     "percent_completed is read before every params() call, as ScheduleHandle.__call__ does; an exception while reading it counts as a value outside [0,1]",
 ]
 REQUIRED_CLAUSES = [
+    "e2e:race-succeeds", "e2e:exactly-once", "e2e:pairing", "e2e:bulk-size-bound", "e2e:client-order",
     "completes", "bulk-size-bound", "pairing", "doc-identity", "contiguous-in-order", "exactly-once", "ingest-stop", "ingest-prefix", "conflict-ids",
     "percent-completed",
 ] + arith.CLAUSES
 REQUIRED_FEATURES = {
+    "e2e": 10, "e2e:multi-worker": 3, "e2e:two-bulk-tasks-in-parallel": 3,
     "quick": {
         "offset-table-seek": 10, "offset-table-exact-entry": 2, "big-skip-without-table": 2, "multi-byte": 50, "crlf": 50, "action-meta-data-file": 50, "generated-meta-data": 50,
         "multi-corpus": 30, "multi-file": 30, "colocated-clients": 100, "split-hosts": 30, "split-random": 30, "split-allocator": 10,
@@ -854,12 +856,17 @@ def arith_case(ctx, case):
     return problems
 
 
+from props import c03_race  # noqa: E402
+
+
 def run_shard(ctx):
     env = Env(ctx.scratch)
     i = 0
     while ctx.more():
         rng = ctx.case_rng(i)
-        if i % (ARITH_PER_FILE_CASE[ctx.tier] + 1) == 0:
+        if i % 120 == 60:
+            c03_race.race_case(ctx, rng)  # end-to-end class: a bulk task through a complete simulated race (props/c03_race.py)
+        elif i % (ARITH_PER_FILE_CASE[ctx.tier] + 1) == 0:
             file_case(ctx, env, gen_case(rng, ctx.tier, ctx.shard))
         else:
             arith_case(ctx, arith.gen(rng, ctx.tier))
@@ -885,7 +892,9 @@ def classify(v):
 
 def replay(ctx, rec):
     case = rec["witness"]["case"]
-    if case.get("kind") == "arith":
+    if rec["witness"].get("workload") == "e2e":
+        c03_race.race_case(ctx, None, explicit=case)
+    elif case.get("kind") == "arith":
         arith_case(ctx, case)
     else:
         file_case(ctx, Env(ctx.scratch), case, do_shrink=False)
